@@ -138,7 +138,11 @@ class World:
             return True
         if not self.started[w]:
             return False
-        ans = self.sched.choose([(("finished", w), 0), (("running", w), 1)])
+        # a worker whose next message has just been waited for in vain (quiet period) is plausibly still running: that
+        # observation belongs to the same deviation as the quiet period itself
+        # observation: during the quiet period "running" is the default answer for such a worker and "finished" the deviation
+        slow = self.silence >= 1 and self.pending(w) > 0
+        ans = self.sched.choose([(("running", w), 0), (("finished", w), 1)] if slow else [(("finished", w), 0), (("running", w), 1)])
         if ans[0] == "finished":
             self.finished_observed[w] = True
             self.events.append(f"w{w} observed terminated")
